@@ -159,7 +159,7 @@ impl Check for C10 {
                     y.sp,
                     y.ep,
                     y.has_changes,
-                    show_bytes(&old_text.bytes, 300),
+                    show_bytes(&old_text.bytes, std::env::var("VERIF_SHOW").ok().and_then(|v| v.parse().ok()).unwrap_or(300)),
                     show_bytes(&text.bytes, 300)
                 )
             };
@@ -190,7 +190,15 @@ impl Check for C10 {
                     if (osp.row, osp.column) == x.sp {
                         let nsp = text.point_of(es);
                         if (nsp.row, nsp.column) != y.sp {
-                            ctx.fail("C10:after_edit_start_point", msg(i, &format!("start point should be {:?}", (nsp.row, nsp.column))));
+                            // discriminant of a listed finding: on the edit's own row the column comes out short by exactly
+                            // the edit's start column (seen after an insertion inside a multi-row token of a column-dependent parent)
+                            let ecol = text.point_of(s).column;
+                            let sig = if nsp.row == y.sp.0 && nsp.row == text.point_of(s).row && ecol > 0 && y.sp.1 < nsp.column && nsp.column - y.sp.1 <= ecol && lname == "indent" {
+                                "C10:after_edit_start_point:short_by_at_most_edit_column_in_indent_grammar"
+                            } else {
+                                "C10:after_edit_start_point"
+                            };
+                            ctx.fail(sig, msg(i, &format!("start point should be {:?}", (nsp.row, nsp.column))));
                             return;
                         }
                     }
@@ -318,3 +326,4 @@ impl Check for C10 {
         }
     }
 }
+
